@@ -8,6 +8,7 @@ CONSTANTS
   Ids <- $4
   IdPath <- $5
   THs = {1, 2, 3}
+  LGs = $LG
   MaxHead = 2
   Peers <- LR
   Legacy <- $6
@@ -16,6 +17,7 @@ CONSTANTS
   FIX_SET_COUNT = TRUE
   FIX_MERGE_UP = TRUE
   FIX_NIL_HASH = TRUE
+  DEV_SAME_COUNT_EQUAL = FALSE
 INVARIANT ObsCanonical
 INVARIANT ObsDiffExact
 INVARIANT InSync
@@ -24,8 +26,11 @@ POSTCONDITION TraceAccepted
 CHECK_DEADLOCK FALSE
 EOF
 }
+LG="{1}"
 mkt LdiffTrace_u2_cur.cfg 2 3 Ids2_6 U2 NoPeer
 mkt LdiffTrace_u2_leg.cfg 2 3 Ids2_6 U2 OnlyR
 mkt LdiffTrace_u3_cur.cfg 3 3 Ids3_6 U3 NoPeer
 mkt LdiffTrace_u3_leg.cfg 3 3 Ids3_6 U3 OnlyR
+LG="{1, 2}"
 mkt LdiffTrace_u4_cur.cfg 2 4 Ids4_5 U4 NoPeer
+mkt LdiffTrace_u4_leg.cfg 2 4 Ids4_5 U4 OnlyR
